@@ -6,7 +6,7 @@
 (*   select      a selection type  a_i < Cho  of a CHOICE with 2..3 alternatives                     *)
 (*   classfield  an object-class field type naming a fixed-type field, as assignment / as component  *)
 (*   valref      a value reference inside a constraint (upper / lower bound, single value, SIZE,     *)
-(*               in a component)                                                                     *)
+(*               in a component; the other end of the range a number, MIN or MAX)                    *)
 (*   namednum    a named number of a referenced INTEGER type inside a constraint on that reference,  *)
 (*               with a decoy type declaring the same identifiers with other values                  *)
 (* early: the referenced definition's name sorts before (TRUE) or after (FALSE) the name of its user *)
@@ -17,7 +17,9 @@ Points ==
     {[fam |-> "param", kinds |-> ks, ninst |-> n, early |-> e] : ks \in KindSeqs, n \in 1..3, e \in BOOLEAN}
     \cup {[fam |-> "select", nalts |-> n, sel |-> s, early |-> e] : n \in 2..3, s \in 1..3, e \in BOOLEAN}
     \cup {[fam |-> "classfield", ascomp |-> c, early |-> e] : c \in BOOLEAN, e \in BOOLEAN}
-    \cup {[fam |-> "valref", where |-> w, early |-> e] : w \in {"upper", "lower", "single", "size", "component", "reftype_default"}, e \in BOOLEAN}
+    \cup {[fam |-> "valref", where |-> w, early |-> e] : w \in {"upper", "lower", "single", "size", "component", "reftype_default",
+                                                                 \* the other end of the range is MIN / MAX (half-open), in a value and in a size range
+                                                                 "upper_min", "lower_max", "size_max", "component_max"}, e \in BOOLEAN}
 NamedNumPoints == {[fam |-> "namednum", where |-> w, early |-> e] : w \in {"range", "single", "component"}, e \in BOOLEAN}
 Legal(p) == p.fam = "select" => p.sel <= p.nalts
 Init == x = 0
